@@ -13,6 +13,8 @@ LTBL = TList(TBL)
 BSET = TSet(TBytes)
 pickled_bset, unpickled_bset = pickle_spec("bset", BSET)
 pickled_b3, unpickled_b3 = pickle_spec("b3", TTuple(TBytes, TBytes, TBytes))
+ILT = TList(TInt)
+pickled_ilist, unpickled_ilist = pickle_spec("ilist", ILT)
 
 # scheme -> (directory, config class, config int fields,
 #            key: (class, [(field, length expr over config)], how), token: (class, fields | "pickle3" | "picklelist"),
@@ -38,7 +40,7 @@ TABLE = {
              None, ("SSE1Token", [("gamma", "config.param_l"), ("eta", "config.param_k + config.param_log2_s_bytes")]),
              ("SSE1Result", "list"), ("SSE1EncryptedDatabase", "SSE1_HEADER", [("A", BL), ("T", TBL)])),
     "SSE2": ("schemes/CGKO06/SSE2", "SSE2Config", ["param_k"],
-             None, ("SSE2Token", "picklelist:t"), ("SSE2Result", "list"), ("SSE2EncryptedDatabase", "SSE2_HEADER", [("I", DIB)])),
+             None, ("SSE2Token", "pickleints:t"), ("SSE2Result", "list"), ("SSE2EncryptedDatabase", "SSE2_HEADER", [("I", DIB)])),
 }
 _pk_cache = {}
 
@@ -111,12 +113,13 @@ for sname, (d, cfgname, cfgfields, key, tok, res, edb) in TABLE.items():
                      ensures=["(%s) == unpickled_b3(xbytes)" % ", ".join("result.%s" % f for f in names)], no_runtime=True, props=["C03"])
             ens = ["result.%s == x.%s" % (f, f) for f in names]
         else:
-            klass(K, fields={names[0]: BL}, construct="%s({%s})" % (cname, names[0]))
+            LT, pkn, unpkn = (ILT, "pickled_ilist", "unpickled_ilist") if kind == "pickleints" else (BL, "pickled_list", "unpickled_list")
+            klass(K, fields={names[0]: LT}, construct="%s({%s})" % (cname, names[0]))
             inline(K + ".__init__")
             contract(K + ".serialize", params=dict(self=KT), returns=TBytes,
-                     ensures=["result == pickled_list(self.%s)" % names[0]], props=["C03"])
+                     ensures=["result == %s(self.%s)" % (pkn, names[0])], props=["C03"])
             contract(K + ".deserialize", params=dict(cls=TAny, xbytes=TBytes, config=TAny), returns=KT, param_values={"cls": ClassRef(K)},
-                     locals={names[0]: BL}, ensures=["result.%s == unpickled_list(xbytes)" % names[0]], no_runtime=True, props=["C03"])
+                     locals={names[0]: LT}, ensures=["result.%s == %s(xbytes)" % (names[0], unpkn)], no_runtime=True, props=["C03"])
             ens = ["result.%s == x.%s" % (names[0], names[0])]
         n = "%s_%s_roundtrip" % (sname.lower(), cname.lower())
         contract("ghost:" + n, params=dict(x=KT), returns=KT, ghost_scope=d + "/structures.py",
